@@ -2,11 +2,12 @@ use std::collections::BTreeMap;
 
 use sea_query::{Alias, ColumnDef as SeaColumnDef, Expr, Query, Table};
 
-use vespertide_core::{ColumnType, ComplexColumnType, TableDef};
+use vespertide_core::{ColumnDef, ColumnType, ComplexColumnType, TableDef};
 
 use super::helpers::{
     apply_column_type_with_table, build_create_enum_type_sql, build_sqlite_temp_table_create,
     convert_default_for_backend, normalize_enum_default, recreate_indexes_after_rebuild,
+    restate_mysql_column_attributes,
 };
 use super::rename_table::build_rename_table;
 use super::types::{BuiltQuery, DatabaseBackend};
@@ -270,12 +271,10 @@ pub fn build_modify_column_type(
             apply_column_type_with_table(&mut col, new_type, table);
 
             // MySQL MODIFY COLUMN redefines the entire column, so we must preserve
-            // existing NOT NULL and DEFAULT attributes
+            // existing NOT NULL, DEFAULT, AUTO_INCREMENT and COMMENT attributes
             if *backend == DatabaseBackend::MySql
-                && let Some(column_def) = current_schema
-                    .iter()
-                    .find(|t| t.name == table)
-                    .and_then(|t| t.columns.iter().find(|c| c.name == column))
+                && let Some(table_def) = current_schema.iter().find(|t| t.name == table)
+                && let Some(column_def) = table_def.columns.iter().find(|c| c.name == column)
             {
                 if !column_def.nullable {
                     col.not_null();
@@ -287,6 +286,11 @@ pub fn build_modify_column_type(
                     let final_default = normalize_enum_default(new_type, &converted);
                     col.default(sea_query::Expr::cust(final_default));
                 }
+                let modified_col_def = ColumnDef {
+                    r#type: new_type.clone(),
+                    ..column_def.clone()
+                };
+                restate_mysql_column_attributes(&mut col, table_def, &modified_col_def);
             }
 
             let stmt = Table::alter()
